@@ -275,6 +275,7 @@ class ByteFeeder:
         self.buf = b''
         self.pause_left = 0
         self.delivered = 0
+        self.log = []            # (virtual time, octets delivered so far) after every delivery
 
     async def sock_recv_into(self, io, view):
         while True:
@@ -287,6 +288,7 @@ class ByteFeeder:
                 view[:n] = self.buf[:n]
                 self.buf = self.buf[n:]
                 self.delivered += n
+                self.log.append((WORLD.now, self.delivered))
                 return n
             if not self.items:
                 return 0
